@@ -74,7 +74,7 @@ func (eng) Rule(mode string) string {
 // ---------- case format ----------
 
 type op struct {
-	Op   string `json:"op"` // ev | wm | ckpt | release | rescale | save
+	Op   string `json:"op"` // ev | wm | ckpt | release | rescale | redeploy | save
 	Key  uint64 `json:"key,omitempty"`
 	Ns   uint64 `json:"ns,omitempty"`
 	Ek   uint64 `json:"ek,omitempty"`
@@ -88,6 +88,7 @@ type op struct {
 	Fold   bool `json:"fold,omitempty"`   // a periodic checkpoint is pending when the savepoint is requested
 	Late   bool `json:"late,omitempty"`   // the next DKV checkpoint is saved before the artifact is copied
 	Retain bool `json:"retain,omitempty"` // operators are told to retain only the savepoint's checkpoint before it is taken
+	Reuse  bool `json:"reuse,omitempty"`  // rescale / redeploy: new operator i keeps the id and directory of old operator i
 	Over   bool `json:"over,omitempty"`   // (with late) the next checkpoint completes and is published before the savepoint's job file is written
 	Fault  int  `json:"fault,omitempty"`  // the Fault-th copy of a DKV file into the artifact fails with ErrNotFound
 }
@@ -307,6 +308,11 @@ type cluster struct {
 	amu      sync.Mutex
 	js       *jobSide // c14: the real snapshot store of the running job
 	shared   []tableRef // tables of the checkpoints the running operators were restored from
+	lastCkpt *snapshotpb.JobCheckpoint // the job checkpoint deployed last (a redeployment uses it again)
+	retained bool                      // a retention update reached an operator since then (the old checkpoint's files may be gone)
+	reuse    bool                      // the next deployment reuses the ids (and directories) of the current operators
+	reused   int
+	refused  int
 	sr       *recSR   // c14: the source runner the job talks to (records StartCheckpoint)
 	asm      *jobs.Assembly
 }
@@ -454,10 +460,24 @@ func (c *cluster) workDir() string { return filepath.Join(c.dir, "work") }
 func (c *cluster) deploy(n int, ckpt *snapshotpb.JobCheckpoint) error {
 	c.gen++
 	c.ks = partitioning.NewKeySpace(c.kgc, n)
+	var prevIDs []string
+	if c.reuse {
+		// surviving workers keep their operator id, hence their DKV directory and `checkpoints` file
+		for _, a := range c.ops {
+			prevIDs = append(prevIDs, a.id)
+		}
+	}
+	c.reuse = false
 	c.ops = make([]*opAdapter, n)
 	protoOps := make([]proto.Operator, n)
 	for i := 0; i < n; i++ {
 		id := fmt.Sprintf("g%d-op%d", c.gen, i)
+		if i < len(prevIDs) && c.reuseSafe(prevIDs[i], i, ckpt) {
+			id = prevIDs[i]
+			c.reused++
+		} else if i < len(prevIDs) {
+			c.refused++
+		}
 		real := operator.NewOperator(operator.NewOperatorParams{
 			ID: id, Host: "h", Job: c.job, UserHandler: c.handler,
 			EventBatching: batching.EventBatcherParams{MaxSize: 1},
@@ -503,6 +523,38 @@ func (c *cluster) quiesce() {
 			waitDB(o.VerifDKV())
 		}
 	}
+}
+
+// reuseSafe: may new operator i of the deployment of ckpt keep the id (= DKV directory) of a current operator?
+// Only if that directory holds no operator checkpoint of ckpt, or the checkpoint it holds is handed to operator i
+// itself. Otherwise the implementation is known to clobber files the job checkpoint still needs (the new database
+// numbers its tables and WALs from what IT loaded and rewrites the directory's `checkpoints` file; see docs/C06.md,
+// observation "reused directory with a moved range") - that class is not generated.
+func (c *cluster) reuseSafe(id string, i int, ckpt *snapshotpb.JobCheckpoint) bool {
+	if ckpt == nil {
+		return true
+	}
+	recorded := ckpt.OperatorCheckpoints
+	from := make([]partitioning.KeyGroupRange, len(recorded))
+	for k, r := range recorded {
+		from[k] = partitioning.KeyGroupRangeFromProto(r.KeyGroupRange)
+	}
+	asg := partitioning.AssignRanges(c.ks.KeyGroupRanges(), from)
+	for k, r := range recorded {
+		if r.OperatorId != id {
+			continue
+		}
+		handed := false
+		for _, x := range asg[i] {
+			if x == k {
+				handed = true
+			}
+		}
+		if !handed {
+			return false
+		}
+	}
+	return true
 }
 
 func (c *cluster) stopAll() {
@@ -733,7 +785,11 @@ func execHistory(mode string, c *hx.Case) (*hx.Result, error) {
 	if err != nil {
 		return nil, err
 	}
-	defer os.RemoveAll(dir)
+	if os.Getenv("RESCALE_KEEP") == "" {
+		defer os.RemoveAll(dir)
+	} else {
+		os.WriteFile(os.Getenv("RESCALE_KEEP"), []byte(dir), 0o644)
+	}
 	cl := &cluster{dir: dir, kgc: kgc, job: &fakeJob{}, handler: &refHandler{}, adapters: map[string]*opAdapter{}}
 	if mode == "c14" {
 		cl.sr = &recSR{}
@@ -832,6 +888,7 @@ func execHistory(mode string, c *hx.Case) (*hx.Result, error) {
 						tags["retain-update-error"] = true
 					}
 					reached++
+					cl.retained = true
 				}
 			}
 			if reached > 0 && reached < len(cl.ops) {
@@ -858,9 +915,32 @@ func execHistory(mode string, c *hx.Case) (*hx.Result, error) {
 			}
 			terms = append(terms, fmt.Sprintf("SRelease %d %d", asked, deleted))
 			jobs_ = append(jobs_, map[string]any{"release_at": o.N, "neighbour_modes": o.Perm, "asked": asked, "deleted": deleted})
+		case "redeploy":
+			// the checkpoints taken since the last deployment were never published by the job (operators checkpointed
+			// locally, the job checkpoint was aborted): the job deploys the previous job checkpoint AGAIN
+			if mode != "c06" || o.N < 1 || o.N > 8 || cl.lastCkpt == nil || cl.retained {
+				continue
+			}
+			if err := cl.waitTasks(); err != nil {
+				return nil, err
+			}
+			m := len(cl.ops)
+			cl.reuse = o.Reuse
+			term, j, nt, err := cl.restartFrom(cl.lastCkpt, o.N, tags, tableIDs, nkeys, false, "SRedeploy")
+			if err != nil {
+				return nil, err
+			}
+			nontrivial = nontrivial || nt
+			terms = append(terms, term)
+			jobs_ = append(jobs_, j)
+			tags["redeploy-same-checkpoint"] = true
+			tags[fmt.Sprintf("%d->%d", m, o.N)] = true
 		case "rescale", "save":
 			if o.N < 1 || o.N > 8 {
 				continue
+			}
+			if o.Op == "rescale" && o.Reuse {
+				cl.reuse = true
 			}
 			m := len(cl.ops)
 			var term string
@@ -885,6 +965,12 @@ func execHistory(mode string, c *hx.Case) (*hx.Result, error) {
 			jobs_ = append(jobs_, j)
 			tags[fmt.Sprintf("%d->%d", m, o.N)] = true
 		}
+	}
+	if cl.reused > 0 {
+		tags["ids-reused"] = true
+	}
+	if cl.refused > 0 {
+		tags["reuse-refused-moved-range"] = true
 	}
 	var tl []string
 	for t := range tags {
@@ -917,10 +1003,11 @@ func (cl *cluster) rescale(o op, tags map[string]bool, tableIDs map[string]int, 
 		tags["ack-permuted"] = true
 	}
 	ckpt := &snapshotpb.JobCheckpoint{Id: cl.ckptID, OperatorCheckpoints: recorded}
-	return cl.restartFrom(ckpt, o.N, tags, tableIDs, nkeys, !ident)
+	return cl.restartFrom(ckpt, o.N, tags, tableIDs, nkeys, !ident, "SRescale")
 }
 
-func (cl *cluster) restartFrom(ckpt *snapshotpb.JobCheckpoint, n int, tags map[string]bool, tableIDs map[string]int, nkeys int, permuted bool) (string, any, bool, error) {
+func (cl *cluster) restartFrom(ckpt *snapshotpb.JobCheckpoint, n int, tags map[string]bool, tableIDs map[string]int, nkeys int, permuted bool, ctor string) (string, any, bool, error) {
+	cl.lastCkpt, cl.retained = ckpt, false
 	recorded := ckpt.OperatorCheckpoints
 	m := len(recorded)
 	// layouts
@@ -1011,7 +1098,7 @@ func (cl *cluster) restartFrom(ckpt *snapshotpb.JobCheckpoint, n int, tags map[s
 	for i := range probes {
 		pl[i] = hx.CoqList(probes[i], "probe")
 	}
-	term := fmt.Sprintf("SRescale %d %s %s %s %s", n, hx.CoqList(recTerms, "kgrange * ckdoc"), asgCoq(asg), hx.CoqBool(layoutOK), hx.CoqList(pl, "list probe"))
+	term := fmt.Sprintf("%s %d %s %s %s %s", ctor, n, hx.CoqList(recTerms, "kgrange * ckdoc"), asgCoq(asg), hx.CoqBool(layoutOK), hx.CoqList(pl, "list probe"))
 	nt := withState >= 2 && (m != n || permuted)
 	if withState >= 2 {
 		tags["state-in-2+-old-operators"] = true
